@@ -1,9 +1,10 @@
 //go:build verif
 
 // Scheduler-area harness: drives the REAL internal/dag/scheduler in-process with scripted executors.
-//   sched  : cases (JSON lines on stdin) -> one JSON result line per case (ops performed, quiescent
-//            snapshots, event trace, verdicts of the Go-side property monitors)
-//   graph  : step lists -> verdict of NewExecutionGraph + independent DFS oracle
+//
+//	sched  : cases (JSON lines on stdin) -> one JSON result line per case (ops performed, quiescent
+//	         snapshots, event trace, verdicts of the Go-side property monitors)
+//	graph  : step lists -> verdict of NewExecutionGraph + independent DFS oracle
 package main
 
 import (
@@ -16,6 +17,7 @@ import (
 	"log"
 	"math/rand"
 	"os"
+	"strings"
 	"sync"
 	"syscall"
 	"time"
@@ -40,11 +42,11 @@ type event struct {
 }
 
 type world struct {
-	mu       sync.Mutex
-	events   []event
-	inflight map[int]*scriptExec // by node index
-	attempts map[int]int
-	g        *scheduler.ExecutionGraph
+	mu        sync.Mutex
+	events    []event
+	inflight  map[int]*scriptExec // by node index
+	attempts  map[int]int
+	g         *scheduler.ExecutionGraph
 	highWater int
 }
 
@@ -124,13 +126,14 @@ func init() {
 // ---------- cases ----------
 
 type nodeCase struct {
-	Deps     []int `json:"deps"`
-	ContFail bool  `json:"cf"`
-	ContSkip bool  `json:"cs"`
-	Limit    int   `json:"limit"`
-	Pre      int   `json:"pre"`   // 0 none, 1 met, 2 unmet
-	Fails    int   `json:"fails"` // fail the first k attempts; -1 = always
-	Obeys    bool  `json:"obeys"`
+	Deps     []int  `json:"deps"`
+	ContFail bool   `json:"cf"`
+	ContSkip bool   `json:"cs"`
+	Limit    int    `json:"limit"`
+	Pre      int    `json:"pre"`           // 0 none, 1 met, 2 unmet
+	Fails    int    `json:"fails"`         // fail the first k attempts; -1 = always
+	Out      bool   `json:"out,omitempty"` // the step declares `output:`
+	Obeys    bool   `json:"obeys"`
 	Sig      string `json:"sig"` // signalOnStop
 	Rep      bool   `json:"rep"` // repeatPolicy.repeat
 	// Pre == 3: the precondition is a command that blocks on a fifo until the harness answers it
@@ -143,7 +146,7 @@ type schedCase struct {
 	ID        string     `json:"id"`
 	Nodes     []nodeCase `json:"nodes"`
 	MaxActive int        `json:"maxActive"`
-	Handlers  [4]int     `json:"handlers"` // success failure cancel exit: 0 absent, 1 ok, 2 fails
+	Handlers  [4]int     `json:"handlers"`  // success failure cancel exit: 0 absent, 1 ok, 2 fails
 	StopAfter int        `json:"stopAfter"` // stop after that many releases; -1 never
 	Seed      int64      `json:"seed"`
 	Dry       bool       `json:"dry"`
@@ -170,19 +173,19 @@ type snap struct {
 }
 
 type result struct {
-	ID        string   `json:"id"`
-	Ops       []string `json:"ops"`
-	Snaps     []snap   `json:"snaps"`
-	Events    []event  `json:"events"`
-	Finished  bool     `json:"finished"`
-	Err       bool     `json:"err"`
-	Hang      bool     `json:"hang"`
-	HighWater int      `json:"hw"`
+	ID        string    `json:"id"`
+	Ops       []string  `json:"ops"`
+	Snaps     []snap    `json:"snaps"`
+	Events    []event   `json:"events"`
+	Finished  bool      `json:"finished"`
+	Err       bool      `json:"err"`
+	Hang      bool      `json:"hang"`
+	HighWater int       `json:"hw"`
 	HandlerSt [4]string `json:"hst"`
-	Monitor   []string `json:"monitor"`
-	Panic     string   `json:"panic,omitempty"`
-	St0       []string `json:"st0,omitempty"` // retry mode: statuses right after NewExecutionGraphForRetry
-	RC0       []int    `json:"rc0,omitempty"`
+	Monitor   []string  `json:"monitor"`
+	Panic     string    `json:"panic,omitempty"`
+	St0       []string  `json:"st0,omitempty"` // retry mode: statuses right after NewExecutionGraphForRetry
+	RC0       []int     `json:"rc0,omitempty"`
 }
 
 var pause = time.Millisecond
@@ -203,6 +206,15 @@ func stepOf(cid string, i int, nc nodeCase) dag.Step {
 	}
 	if nc.Limit > 0 {
 		s.RetryPolicy = &dag.RetryPolicy{Limit: nc.Limit}
+	}
+	if nc.Out {
+		// `output:` makes Node.Execute go through the capture path (pipe, environment variable) after the command
+		s.Output = fmt.Sprintf("VERIF_OUT_%s_%d", strings.ToUpper(strings.Map(func(r rune) rune {
+			if r >= 'a' && r <= 'z' || r >= '0' && r <= '9' {
+				return r
+			}
+			return '_'
+		}, cid)), i)
 	}
 	if nc.Rep {
 		s.RepeatPolicy = dag.RepeatPolicy{Repeat: true, Interval: time.Duration(curCase.RepInt) * time.Millisecond}
